@@ -117,10 +117,16 @@ def _drive_files(args):
         f = io.BytesIO()
         events = []
         try:
-            if cfgspec[0] == 'pkgvar' and tid % 2:
-                # another writer with the packaged carrier assignment is used in this process just before
+            if cfgspec[0] == 'pkgvar' and (tid % 2 or tid == ids[0]):
+                # another writer with the packaged carrier assignment is used in this process just before (for the
+                # first file of a job: before this configuration has ever been used in the process)
                 w0 = mciipm.IpmWriter(io.BytesIO(), encoding=codec, blocked=blocked)
                 w0.write({'MTI': '1240', 'PDS0001': 'other writer'})
+                w0.close()
+            if cfgspec[0] == 'pkg' and (tid % 2 or tid == ids[0]):
+                # ... and the other way round: same element numbers, another carrier assignment, used just before
+                w0 = mciipm.IpmWriter(io.BytesIO(), encoding=codec, iso_config=isocheck.get_config(('pkgvar', 0)), blocked=blocked)
+                w0.write({'MTI': '1240', 'PDS0001': 'other writer', 'DE48': 'plain text here'})
                 w0.close()
             w = mciipm.IpmWriter(f, encoding=codec, iso_config=bc, blocked=blocked)
             if tid % 3 == 1:
